@@ -260,7 +260,7 @@ impl Action {
                 return Err(EncoderError::UnknownDecoderInstruction(first))
             }
             DecoderInstruction::InsertCountIncrement => InsertCountIncrement::decode(&mut buf)?
-                .map(|x| Action::ReceivedRefIncrement(x.0 as usize)),
+                .map(|x| Action::ReceivedRefIncrement(x.0)),
             DecoderInstruction::HeaderAck => {
                 HeaderAck::decode(&mut buf)?.map(|x| Action::Untrack(x.0))
             }
